@@ -437,7 +437,7 @@ def _pairs(result, directed):
 
 
 NBUNCHES = [("none", None), ("node A", "A"), ("[A]", ["A"]), ("[A, B]", ["A", "B"]), ("[B, Z]", ["B", "Z"]),
-            ("iterator(A, C)", ("iter", ["A", "C"]))]
+            ("iterator(A, C)", ("iter", ["A", "C"])), ("[A, A]", ["A", "A"])]
 
 
 def _mk_nbunch(nb):
